@@ -26,13 +26,43 @@ def T(text, cls='fixed'):
     return (text, cls)
 
 
+CURRENCY_ALIASES = ['avro', 'dollar', 'euro', 'kroner', 'lef', 'leva', 'tl', 'лв']       # configured alias words (config.json currency_alias)
+# names with letters whose lower-casing changes the byte length (İ), written in capitals so that every re-casing is the same name
+VAR_NAMES = ['zq', 'wv rate', 'mk total', 'İZMİR', 'BİTİŞ', 'ÖĞLE ARASI', 'ÇAY', 'İŞ GÜNÜ']
+TR_DUR = ['gün', 'hafta', 'ay', 'yıl']
+
+
+def var_words(name):
+    """the words of a variable name; a word with 'İ' is not re-cased: its lower case is 'i' + a combining dot (U+0307), which is
+    not what a user types as the other case of that letter, and the statement cannot be read as demanding it"""
+    return [T(w, 'fixed' if 'İ' in w else 'var') for w in name.split()]
+
+
+def gen_base_tr(rng):
+    """Turkish base lines: month-name dates, date arithmetic, dates bound to names with multi-byte capitals"""
+    lm, sm = lex.months('tr')
+    months = sorted(lm) + sorted(sm)
+    date = [T(str(rng.randint(1, 28))), T(rng.choice(months), 'month'), T(str(rng.choice([2019, 2020, 2021, 2024, 1999])))]
+    k = rng.randrange(4)
+    if k == 0:
+        return [date]
+    if k == 1:
+        return [date + [T(rng.choice('+-')), T(str(rng.randint(1, 25))), T(rng.choice(TR_DUR))]]
+    nw = var_words(rng.choice(VAR_NAMES))
+    if k == 2:
+        return [nw + [T('=')] + date]
+    return [nw + [T('=')] + date, nw + [T('+'), T(str(rng.randint(1, 20))), T('gün')]]
+
+
 def gen_base(rng, today_year):
     """-> list of lines, each a list of (word, class) joined by single blanks"""
     codes = lex.rated_codes()
+    if rng.random() < 0.25:
+        codes = CURRENCY_ALIASES
     zones = sorted(lex.admissible_zones('en'))
     lm, sm = lex.months('en')
     months = sorted(lm) + sorted(sm)
-    k = rng.randrange(14)
+    k = rng.randrange(16)
     a = rng.choice(AMTS)
     if k == 0:
         return [[T(a), T(rng.choice(codes), 'currency'), T(rng.choice(['to', 'as', 'in', 'into']), 'conn'), T(rng.choice(codes), 'currency')]]
@@ -71,9 +101,18 @@ def gen_base(rng, today_year):
     if k == 9:
         return [[T(str(rng.randint(1, 28))), T(rng.choice(months), 'month'), T('2021'), T('at', 'conn'), T('%d:%02d' % (rng.randint(0, 23), rng.randint(0, 59)))]]
     if k == 10:
-        name = rng.choice(['zq', 'wv rate', 'mk total'])
-        nw = [T(w, 'var') for w in name.split()]
-        return [nw + [T('='), T(a)], nw + [T(rng.choice('+*-')), T(rng.choice(AMTS))]]
+        nw = var_words(rng.choice(VAR_NAMES))
+        lines = [nw + [T('='), T(a)]]
+        if rng.random() < 0.5:
+            lines.append(nw + [T('='), T(rng.choice(AMTS[1:]))])          # bound again (in a re-cased variant: in another spelling)
+        return lines + [nw + [T(rng.choice('+*-')), T(rng.choice(AMTS))]]
+    if k in (14, 15):
+        # a name with multi-byte capitals in front of a month-name date on the same line
+        nw = var_words(rng.choice(VAR_NAMES))
+        date = [T(str(rng.randint(1, 28))), T(rng.choice(months), 'month'), T(str(rng.choice([2019, 2020, 2021, 2024])))]
+        if k == 14:
+            return [nw + [T('=')] + date]
+        return [nw + [T('=')] + date, nw + [T(rng.choice('+-')), T(str(rng.randint(1, 25))), T(rng.choice(['days', 'weeks']))]]
     if k == 11:
         tree = ge.gen_tree(rng, rng.randint(1, 3), {'suffix': False, 'deep_paren': False, 'group_sign': False, 'detached': False, 'juxt': False})
         toks = ge.lex_tokens(tree, DEFAULT_SEP)
@@ -146,13 +185,14 @@ def run_shard(ctx):
                 items.append(('en', text))
                 meta.append(('empty', text, None))
                 continue
-            lines = gen_base(rng, today_year)
+            lang = 'tr' if rng.random() < 0.15 else 'en'
+            lines = gen_base_tr(rng) if lang == 'tr' else gen_base(rng, today_year)
             base = render(rng, lines, 'base')
             variants = [(m, render(rng, lines, m)) for m in ('blanks', 'comment', 'case', 'all')]
-            items.append(('en', base))
+            items.append((lang, base))
             meta.append(('base', base, len(variants)))
             for m, t in variants:
-                items.append(('en', t))
+                items.append((lang, t))
                 meta.append(('variant:' + m, t, None))
         rs = mon.run_lines(drv, cfg, items)
         i = 0
@@ -181,6 +221,7 @@ def run_shard(ctx):
                 vslot = mon.last_slot(rs[i + j])
                 res.cases += 1
                 res.count('class:' + vkind)
+                res.count('lang:' + items[i][0])
                 res.distinct.add(text, vtext)
                 if value(vslot) == bval:
                     res.count('ok')
@@ -188,6 +229,6 @@ def run_shard(ctx):
                         res.sample({'base': text, 'rewritten': vtext, 'value': mon.describe(bslot)})
                 else:
                     res.violation('rewrite:%s:%s' % (vkind.split(':')[1], bval.get('k')), 'base %r = %s, rewritten %r = %s' % (text, mon.describe(bslot), vtext, mon.describe(vslot)),
-                                  {'config': cfg, 'lang': 'en', 'text': vtext, 'base': text, 'epoch': epoch,
-                                   'ops': mon.gh.config_ops(cfg) + [{'op': 'execute', 'lang': 'en', 'text': text}, {'op': 'execute', 'lang': 'en', 'text': vtext}]})
+                                  {'config': cfg, 'lang': items[i][0], 'text': vtext, 'base': text, 'epoch': epoch,
+                                   'ops': mon.gh.config_ops(cfg) + [{'op': 'execute', 'lang': items[i][0], 'text': text}, {'op': 'execute', 'lang': items[i][0], 'text': vtext}]})
             i += 1 + nvar
